@@ -4,8 +4,10 @@ package plugin
 
 import (
 	"fmt"
+	"net"
 	"sort"
 	"testing"
+	"testing/synctest"
 	"time"
 
 	"github.com/mdlayher/ndp"
@@ -159,6 +161,94 @@ func TestVerifC16(t *testing.T) {
 		}
 		if r.WantSample() && deprecated {
 			r.Sample(map[string]any{"id": id, "epoch": epoch, "valid": valid.String(), "preferred": pref.String(), "route": route.String(), "clock_offsets": fmt.Sprint(offs)})
+		}
+	}
+}
+
+// TestVerifC16Prepare — the countdown as the daemon runs it: the clock is the one
+// that Prepare installs, and Prepare runs again on every (re)initialisation of
+// the interface, possibly long after the epoch.  Virtual time (a synctest bubble
+// fakes time.Now), so the expected values are exact.
+func TestVerifC16Prepare(t *testing.T) {
+	r := vlib.Start("C16", "prepare")
+	defer r.Finish()
+	ifi := &net.Interface{Index: 1, Name: "lo"}
+	lts := []time.Duration{30 * time.Second, 90 * time.Second, 2 * time.Hour}
+	for li, L := range lts {
+		first := []time.Duration{0, time.Millisecond, 20 * time.Second, L - time.Nanosecond, L, L + time.Second}
+		later := []time.Duration{0, 300 * time.Millisecond, 10 * time.Second, L / 2, L}
+		for fi, e1 := range first {
+			for gi, e2 := range later {
+				for _, e3 := range []time.Duration{0, 7 * time.Second} {
+					id := fmt.Sprintf("prepare/%d/%d/%d/%v", li, fi, gi, e3)
+					if !r.Mine(id) {
+						continue
+					}
+					r.Begin(id)
+					r.Nontrivial(id)
+					var viol string
+					synctest.Test(t, func(t *testing.T) {
+						epoch := time.Now()
+						pf := &Prefix{Prefix: mp("2001:db8:dead::/64"), OnLink: true, Autonomous: true, ValidLifetime: L, PreferredLifetime: L / 2, Deprecated: true, Epoch: epoch}
+						rt := &Route{Prefix: mp("2001:db8:beef::/48"), Lifetime: L, Deprecated: true, Epoch: epoch}
+						rem := func(l time.Duration) time.Duration {
+							if d := l - time.Since(epoch); d > 0 {
+								return d
+							}
+							return 0
+						}
+						prevV, prevR := time.Duration(1<<62), time.Duration(1<<62)
+						look := func(when string) {
+							ra := &ndp.RouterAdvertisement{}
+							if err := pf.Apply(ra); err != nil {
+								viol = when + ": prefix: " + err.Error()
+								return
+							}
+							if err := rt.Apply(ra); err != nil {
+								viol = when + ": route: " + err.Error()
+								return
+							}
+							pi := ra.Options[0].(*ndp.PrefixInformation)
+							ri := ra.Options[1].(*ndp.RouteInformation)
+							r.Count("prepared_generations_compared", 1)
+							if pi.ValidLifetime != rem(L) || pi.PreferredLifetime != rem(L/2) || ri.RouteLifetime != rem(L) {
+								viol = fmt.Sprintf("%s, %v after the start: prefix valid/preferred %v/%v, route %v; the time remaining until start + configured lifetime is %v/%v, %v",
+									when, time.Since(epoch), pi.ValidLifetime, pi.PreferredLifetime, ri.RouteLifetime, rem(L), rem(L/2), rem(L))
+								return
+							}
+							if pi.ValidLifetime > prevV || ri.RouteLifetime > prevR {
+								viol = fmt.Sprintf("%s: advertised lifetime increased from %v to %v", when, prevV, pi.ValidLifetime)
+							}
+							prevV, prevR = pi.ValidLifetime, ri.RouteLifetime
+						}
+						prep := func() {
+							if err := pf.Prepare(ifi); err != nil {
+								viol = "Prepare: " + err.Error()
+							}
+							if err := rt.Prepare(ifi); err != nil {
+								viol = "Prepare: " + err.Error()
+							}
+						}
+						time.Sleep(e1) // the interface comes up e1 after the daemon started
+						prep()
+						look("after the first Prepare")
+						if viol != "" {
+							return
+						}
+						time.Sleep(e3)
+						look("later, same connection")
+						if viol != "" {
+							return
+						}
+						time.Sleep(e2) // link flap: the interface is prepared again
+						prep()
+						look("after the interface was prepared again")
+					})
+					if viol != "" {
+						r.Violation(id, "countdown-restarted", viol, map[string]any{"lifetime": L.String(), "first_prepare_after": e1.String(), "second_prepare_after": (e1 + e3 + e2).String()})
+					}
+				}
+			}
 		}
 	}
 }
